@@ -65,8 +65,37 @@ def nesting(c):
     return "i"
 
 
+# Value classes.  The abstract trees of the specification hold small integers; an executor may ask for other scalars to stand for them when the real objects are
+# built (floats, a float zero for the default, integers beyond 2**31, nearly equal floats): VALUE_MAP maps abstract value -> real value with the same
+# equalities and inequalities, and the projection maps every real value back to the abstract value it equals numerically.
+VALUE_MAP = None
+VALUE_MAPS = {
+    "floatzero": {0: 0.0, 1: 1.0, 2: 2, 3: 3.5},
+    "big": {0: 0, 1: 10 ** 12, 2: 10 ** 12 + 1, 3: -(10 ** 10)},
+    "nearfloats": {0: 0, 1: 0.1 + 0.2, 2: 0.3, 3: 1e-12},
+    "negative": {0: 0, 1: -1, 2: -2, 3: 7},
+}
+
+
+def real(v):
+    if VALUE_MAP and isinstance(v, int) and not isinstance(v, bool):
+        return VALUE_MAP.get(v, v)
+    return v
+
+
+def abstract(v):
+    if VALUE_MAP and isinstance(v, (int, float)) and not isinstance(v, bool):
+        for a, r in VALUE_MAP.items():
+            if r == v:
+                return a
+    return None
+
+
 def proj_value(v):
     """leaf value (already unboxed once) -> payload record"""
+    a = abstract(v)
+    if a is not None:
+        return {"k": "L", "v": a}
     if isinstance(v, bool):
         return {"k": "L", "v": int(v)}
     if isinstance(v, int):
@@ -251,16 +280,16 @@ def build_fiber(tree, default=0, shape=None):
         if p["k"] == "F":
             payloads.append(build_fiber(p, default, shape[1:] if shape else None))
         else:
-            payloads.append(p["v"])
+            payloads.append(real(p["v"]))
     kw = {}
     if shape:
         kw["shape"] = shape[0]
-    return Fiber(coords, payloads, default=default, **kw)
+    return Fiber(coords, payloads, default=real(default), **kw)
 
 
 def build_tensor(tree, rank_ids, shape=None, default=0, name="T"):
     f = build_fiber(tree, default)
-    return Tensor.fromFiber(rank_ids=list(rank_ids), fiber=f, shape=shape, default=default, name=name)
+    return Tensor.fromFiber(rank_ids=list(rank_ids), fiber=f, shape=shape, default=real(default), name=name)
 
 
 def strip(tree):
